@@ -100,6 +100,8 @@ pub struct PrintOpts {
     pub anchors_negm: bool,
     /// possessive quantifier `X*+` as atomic group `(?>X*)`
     pub poss_as_atomic: bool,
+    /// atomic group around a quantified atom, `(?>X*)` / `(?>X*?)`, as the possessive suffix `X*+` / `X*?+`
+    pub atomic_as_poss: bool,
     /// newline literal as a raw newline character instead of `\n`
     pub raw_newline: bool,
     /// back-references as relative `\k<-n>`
@@ -335,6 +337,16 @@ impl<'o> P<'o> {
                 });
                 self.print(c, 0);
                 self.t(")");
+            }
+            Atomic(c) if self.opts.atomic_as_poss && matches!(&**c, Repeat(_, _, _, Q::Greedy | Q::Lazy)) => {
+                if prec > 2 {
+                    self.t("(?:");
+                }
+                self.print(c, 2);
+                self.t("+");
+                if prec > 2 {
+                    self.t(")");
+                }
             }
             Atomic(c) => {
                 self.t("(?>");
